@@ -51,6 +51,7 @@ impl DebugServer {
         self.thread = Some(std::thread::spawn(move || {
             while !thread_shutdown.load(Ordering::Relaxed) {
                 let mut dbg = DebugSession::new(lsp.clone(), port);
+                dbg.shutdown = thread_shutdown.clone();
                 match dbg.start() {
                     Ok(_) => (),
                     Err(e) => {
@@ -82,6 +83,8 @@ pub struct DebugSession {
     no_debug: bool,
     lines_start_at_1: bool,
     columns_start_at_1: bool,
+    /// Set when the whole debug server should stop (i.e. no new sessions should be accepted)
+    shutdown: Arc<AtomicBool>,
 }
 
 struct MachineAdapterMemoryAccessor {
@@ -725,6 +728,7 @@ impl DebugSession {
             no_debug: false,
             lines_start_at_1: false,
             columns_start_at_1: false,
+            shutdown: Arc::new(AtomicBool::new(false)),
         }
     }
 
@@ -801,8 +805,16 @@ impl DebugSession {
 
     pub fn start(&mut self) -> MosResult<()> {
         log::info!("DebugSession listening on port {}...", self.port);
-        let (debug_connection, _) = DebugConnection::tcp(&format!("127.0.0.1:{}", self.port))
-            .unwrap_or_else(|e| panic!("Couldn't listen on port {}: {}", self.port, e));
+        let debug_connection =
+            DebugConnection::tcp(&format!("127.0.0.1:{}", self.port), &self.shutdown)
+                .unwrap_or_else(|e| panic!("Couldn't listen on port {}: {}", self.port, e));
+        let debug_connection = match debug_connection {
+            Some((debug_connection, _)) => debug_connection,
+            None => {
+                // We're shutting down and no client has connected
+                return Ok(());
+            }
+        };
         self.conn = Some(Arc::new(debug_connection));
         let lsp_shutdown_receiver = self.lsp.lock().unwrap().add_shutdown_handler();
 
@@ -832,7 +844,11 @@ impl DebugSession {
                     Err(_) => break,
                 },
                 1 => {
+                    // (a selected operation has to be completed)
+                    let _ = oper.recv(lsp_shutdown_receiver.receiver());
                     log::trace!("Shutdown received from LSP.");
+                    // The language server is going away, so no new debug sessions should be accepted either
+                    self.shutdown.store(true, Ordering::Relaxed);
                     break;
                 }
                 2 => {
